@@ -1,5 +1,3 @@
-//go:build wip_c07
-
 package props
 
 import (
@@ -349,9 +347,9 @@ func newCmModel(c *kit.Ctx) *cmModel {
 
 	// ---- client-state type and client interface
 	type cand struct {
-		n                        *types.Named
-		once, ch, client, node   *types.Var
-		iface                    *types.Named
+		n                      *types.Named
+		once, ch, client, node *types.Var
+		iface                  *types.Named
 	}
 	var cands []cand
 	for _, name := range scope.Names() {
